@@ -38,6 +38,8 @@ type Event map[string]any
 type Recorder struct {
 	mu     sync.Mutex
 	events []Event
+	// Sink, when set, receives every event as it is logged (under the recorder's lock).
+	Sink func(Event)
 }
 
 func (r *Recorder) Log(ev string, kv ...any) {
@@ -47,6 +49,9 @@ func (r *Recorder) Log(ev string, kv ...any) {
 	}
 	r.mu.Lock()
 	r.events = append(r.events, e)
+	if r.Sink != nil {
+		r.Sink(e)
+	}
 	r.mu.Unlock()
 }
 
